@@ -21,6 +21,18 @@ pub fn uniform_script(p: &mut Prng, k: usize) -> RngScript {
     RngScript { cands: (0..k).map(|_| p.bytes32()).collect(), filler: p.next_u64(), real: false }
 }
 
+/// Script whose first candidate is, one time in four, a scalar of a structured class (1, 2, order-2,
+/// sparse, dense, high-limb-only, limb-boundary) instead of uniform bytes: nonces and ephemeral
+/// scalars then also visit the arithmetic corners that keys visit.
+pub fn classy_script(p: &mut Prng, order: &BigUint) -> RngScript {
+    if p.chance(1, 4) {
+        let (k, _) = scalar_class(p, order);
+        RngScript { cands: vec![be32(&k)], filler: p.next_u64(), real: false }
+    } else {
+        uniform_script(p, 1)
+    }
+}
+
 pub fn be32(x: &BigUint) -> [u8; 32] {
     rsm2::be32(x)
 }
@@ -119,6 +131,11 @@ pub fn id_class(p: &mut Prng) -> Option<Vec<u8>> {
         6 => Some(ascii(p, 100)),
         7 => Some(ascii(p, 8191)),
         8 => Some("用户甲@示例.中国".as_bytes().to_vec()),
+        10 => {
+            // every length around the SM3 block boundaries of the ZA input
+            let n = p.range(0, 140);
+            Some(ascii(p, n))
+        }
         9 => Some(ascii(p, 8190)),
         _ => {
             let n = p.range(1, 40);
